@@ -33,6 +33,21 @@ LOOPS = [
 ]
 
 
+# every way an instruction can fail (and be re-entered by the next call): the iterator is advanced after each error
+ERRS = ["path([1] | .[])", "path({a:1} | .[])", "[1] | path(.[0] | [2] | .[])", "path(1 | .a)", "path(1 | .[0])", "path([1] | .[0])", "path({a:1} | .a)", "path(1 | .[1:])", "path(getpath([\"a\"]) | 1 | getpath([\"b\"]))",
+        "(1 | .[]) = 2", "del([1] | .[])", "([1] | .[0]) |= 3", ".[]", ".a", ".[0]", ".[1:]", "{(1): 2}", "{(null, \"a\", 1): 2}", "{a: 1} | .[0]", "[1] | .a", "1 | .[]?, .[]", "to_entries", "keys", "error", "error(null)", "error(\"x\")",
+        "[.[]? | error]", "(1, error, 2, error, 3)", "(error, 1)", "error | 1", "try error(\"x\") catch error(\"y\")", "(try error catch .) | error", ".[] |= error", "reduce error as $x (0; .)", "reduce (1, 2) as $x (0; error)",
+        "foreach (1, error) as $x (0; .)", "foreach (1, 2) as $x (0; error; .)", "foreach (1, 2) as $x (0; .; error)", "if error then 1 else 2 end", "if . then error else error end", "error as $x | 1", "1 as $x | error",
+        "[error]", "{a: error}", "{(error): 1}", "error + 1", "1 + error", "-error", "error?", "(.. | error)", "path(error)", "[paths(error)]", "getpath(error)", "getpath(1)", "getpath([\"a\", 1, \"b\"]) | error",
+        "limit(error; 1)", "limit(1; error)", "first(error)", "first(range(3) | error)", "range(error)", "range(\"a\")", "label $l | error", "label $l | (1, break $l, error)", ".[error]", ".[1:error]", ".[\"a\":]",
+        ". as [$a] ?// $a | error", ". as [$a] | $a", ". as {a: $a} | $a", ".[] as [$a] ?// {a: $a} | $a | error", "implode", "[1114112, -1] | implode", "tojson | fromjson | error", "\"{\" | fromjson", "\"\\(error)\"",
+        "@base64d", "\"%zz\" | @urid", "test(\"(\")", "[splits(\"(\")]", "sub(\"(\"; \"x\")", "ltrimstr(1) | error", "input", "[inputs]", "halt_error", "(1, halt_error, 2)", "halt", "1 / 0", "1 % 0", "[1] | .[1e1000]",
+        "setpath(1; 2)", "setpath([1]; 2)", "delpaths(1)", "delpaths([[\"a\", 0]]) | error", "flatten(-1)", "tonumber", "\"x\" | tonumber", "[1, [2]] | implode", "{} | has(1)", "[] | has(\"a\")", "splits(1)", "ascii_downcase",
+        "join(\",\")", "[[1]] | join(\",\")", "add", "{a: 1} | add | error", "min_by(error)", "sort_by(error)", "group_by(.[])", "with_entries(error)", "walk(error)", "env | error", "$ENV | .a | error", "$__loc__ | error",
+        "def f: error; f, f", "def f(g): g, g; f(error)", "def f($a): $a; f(error, 1)", "[limit(3; repeat(error))]", "[limit(3; repeat(try error catch .))] | error", "first(empty) // error", "(error // 1)", "(1 // error)",
+        "(null // error)", "(false, error) // 2", "isempty(error)", "any(error; .)", "all(.[]?; error)", "[range(3)] | .[] |= (if . == 1 then error else . end)", "try (1, error, 2) catch (error, 3)", "[.[]?, error] | length"]
+
+
 def run(tier, seed, replay):
     rep = vc.Report(PROP, tier, seed)
     rep.assumptions += ["one poll of ctx.Done() per instruction is what `the next step of the interpreter` means (execute.go Next prologue)"]
@@ -51,6 +66,9 @@ def run(tier, seed, replay):
         else:
             ks_override = None
             progs = [(s, r.choice(inputs)) for s in LOOPS]
+            errs = ERRS if not quick else r.sample(ERRS, 70) + ERRS[:12]
+            progs += [(s, r.choice(inputs)) for s in errs] + [(s, jqgen.V(x)) for s in (ERRS[:40] if not quick else ERRS[:12]) for x in ([1], {"a": 1})]
+            progs += [(c["src"], c["inputs"][0]) for c in evalfam.regression_cases()]
             for _ in range(40 if quick else 400):
                 progs.append((jqgen.program(r, 3), r.choice(uni)))
             if not quick:
